@@ -124,7 +124,7 @@ ParCSRMatrix* ParCSRMatrix::add(ParCSRMatrix* B)
         for (std::vector<int>::iterator it = C->off_proc->idx2.begin() + off_nnz;
                 it != C->off_proc->idx2.begin() + off_nnz + (end - start); ++it)
         {
-            *it = off_proc_to_new[*it];
+            *it = B_off_proc_to_new[*it];
         }
         off_nnz += (end - start);
 
